@@ -92,6 +92,13 @@ def answer (line : String) : String :=
       | .error e => s!"exc {e.name}"
     | none => "bad-tree"
   | "like" :: rest => withTree rest fun t _ => toString (hasLikeTerms t)
+  | "subterms" :: rest => withTree rest fun t _ =>
+      match getSubTerms t with
+      | .raised => "raised"
+      | .notTerms => "false"
+      | .terms ts =>
+        let tg : Option Ex → String := fun o => match o with | some e => toString e.tag | none => "0"
+        "terms " ++ ";".intercalate (ts.map fun (c, v, e) => s!"{tg c},{tg v},{tg e}")
   | "termkey" :: rest => withTree rest fun t _ =>
       match getTermKey t with
       | some k => s!"key {String.ofList k.vars}| {match k.exp with | some e => ratToWire e | none => "-"}"
